@@ -14,6 +14,9 @@ VARIABLE c
 \*   glob_all       use p1::*; use p2::*; ...
 \*   qualified_unknown   zzz::Dup in the field type
 \*   use_first      use p1::Dup;             an ordinary, unambiguous import (control)
+\*   use_last       use pN::Dup;             an unambiguous import from the LAST provider (with renames = one: a provider that does not
+\*                                           rename the type, while another crate's type of the same name is renamed)
+\*   qualified_last pN::Dup in the field type
 \*   use_facade_plus   use facade::Dup; use pN::OnlyN;   the ambiguous name next to an ordinary import from the last provider
 \*   distinct_needs no shared name at all: providers + 2 crates whose modules need different helpers and imports (Option, Vec,
 \*                  HashMap, unit, a date, a generic) - state a backend keeps across the modules of one run must not show
